@@ -2,7 +2,7 @@
 requested crash point.  Everything that observes or kills lives here, in the harness; artap is imported unmodified.
 
 usage: writer.py '<json spec>'
-spec: {"root": artap root, "db": path, "log": side-log path, "scenario": "serial"|"parallel"|"nsga2",
+spec: {"root": artap root, "db": path, "log": side-log path, "scenario": "serial"|"parallel"|"nsga2"|"epsmoea"|"omopso",
        "payload": "small"|"big", "inject": null | {"kind":"A","k":int} | {"kind":"B","j":int,"phase":"before"|"after"},
        "slow_ms": float}
 Side log (os.write, O_APPEND, survives any kind of death): JSON lines TRY/ACK per synchronisation attempt with the
@@ -150,10 +150,20 @@ if sc in ("serial", "parallel"):
     alg.evaluate(inds)
     problem.data_store.sync_all()
 else:
-    from artap.algorithm_NSGAII import NSGAII
-    alg = NSGAII(problem)
+    if sc == "nsga2":
+        from artap.algorithm_NSGAII import NSGAII as Alg
+        gens = 3
+    elif sc == "epsmoea":
+        from artap.algorithm_genetic import EpsMOEA as Alg
+        gens = 2
+    elif sc == "omopso":
+        from artap.algorithm_swarm import OMOPSO as Alg
+        gens = 2
+    else:
+        raise SystemExit("unknown scenario %r" % sc)
+    alg = Alg(problem)
     alg.options["max_population_size"] = 4
-    alg.options["max_population_number"] = 3
+    alg.options["max_population_number"] = gens
     alg.run()
 
 log({"e": "COUNTS", "sql": STATE["sql"], "obj": STATE["obj"]})
